@@ -58,7 +58,7 @@ JwkRequired(k) == k.material \in {"jwk", "both"} \/ k.type = "JsonWebKey2020"
 
 KeyOk(k) ==
     /\ IdOk(k.id)
-    /\ k.type # "missing"
+    /\ k.type \notin {"missing", "empty", "number", "null"}     \* a type: a non-empty string
     /\ k.material \in {"jwk", "b58"}                         \* exactly one of JWK / base58
     /\ k.extra = "none"                                      \* no unknown members
     /\ PurposesOk(k.type, k.pp)
@@ -77,7 +77,7 @@ PPVals == [present : {TRUE}, set : SUBSET Purposes, unknown : {FALSE}, sixth : {
 
 KeyFieldVals ==
     [id       |-> IdVals,
-     type     |-> KeyTypes \cup {"Unknown2099", "missing"},
+     type     |-> KeyTypes \cup {"Unknown2099", "missing", "empty", "number", "null"},
      material |-> {"jwk", "b58", "both", "none"},
      jwk      |-> JwkVals,
      pp       |-> PPVals,
@@ -114,9 +114,11 @@ SvcCase(s, wrap, dup) == [kind |-> "svc", s |-> s, wrap |-> wrap, dup |-> dup]
 \* list-valued patches: remove-public-keys / remove-services ids, also-known-as uris, json patches
 \* dup_respelled: two entries that differ as strings only - for URIs the same URI once parsed (scheme in another
 \* letter case), for ids two different ids
-ListVals == {"ok_one", "ok_two", "empty", "not_array", "missing_value", "bad_entry_first", "bad_entry_last", "dup", "dup_respelled"}
+\* ok_many: five further entries of other spellings (URIs: relative references - "parse" is all that is asked of them;
+\* ids: the other characters and the longest length)
+ListVals == {"ok_one", "ok_two", "ok_many", "empty", "not_array", "missing_value", "bad_entry_first", "bad_entry_last", "dup", "dup_respelled"}
 ListOk(action, v) ==
-    CASE v \in {"ok_one", "ok_two"} -> TRUE
+    CASE v \in {"ok_one", "ok_two", "ok_many"} -> TRUE
       [] v \in {"dup", "dup_respelled"} -> action \in {"remove-public-keys", "remove-services"}  \* only also-known-as URIs must be unique
       [] OTHER -> FALSE
 ListActions == {"remove-public-keys", "remove-services", "add-also-known-as", "remove-also-known-as"}
